@@ -38,6 +38,8 @@ ListOK(e) ==
   LET toks == [i \in DOMAIN e.toks |-> [tok |-> ParseBody(e.toks[i].body), w |-> e.toks[i].w]] IN
   /\ \A i \in DOMAIN toks : toks[i].tok.kind # "bad"
   /\ e.rres = "ok" /\ NoDupKeys(e.rng) /\ MapOf(e.rng) = RangeOf(toks, Empty)
+  \* the same list through the other public route: each token parsed alone, the expansions collected into a range in list order
+  /\ e.cres = "ok" /\ NoDupKeys(e.crng) /\ MapOf(e.crng) = RangeOf(toks, Empty)
 AllowedC05(e) == CASE e.op = "tok" -> TokOK(e) [] e.op = "list" -> ListOK(e) [] OTHER -> TRUE
 \* ---- C06, token half
 \* a token built with HandRangeToken::new (kind, rank pair, end rank or cards, weight), printed, the text parsed back:
@@ -52,14 +54,14 @@ NoPanicStr(e) == /\ e.rank # "panic" /\ e.suit # "panic" /\ e.card # "panic" /\ 
                  /\ e.range # "panic" /\ e.expand # "panic" /\ e.fmt # "panic" /\ e.split # "panic" /\ e.enum \notin {"panic", "hang"}
 AllowedC09(e) == CASE e.op = "str" -> NoPanicStr(e)
                    [] e.op = "tok" -> e.tres # "panic" /\ e.rres # "panic" /\ e.rt # -2
-                   [] e.op = "list" -> e.rres # "panic"
+                   [] e.op = "list" -> e.rres # "panic" /\ e.cres # "panic"
                    [] e.op = "ctok" -> e.fmt # "panic" /\ e.res # "panic" /\ e.ores # "panic"
                    [] OTHER -> TRUE
 \* ---- C10
 ShowsOK(sh) == \A i \in DOMAIN sh : Cardinality({sh[i][1][j] : j \in DOMAIN sh[i][1]}) = Len(sh[i][1]) /\ ValidWeight(sh[i][2])
 AllowedC10(e) == CASE e.op = "str" -> ValidTriples(e.rng) /\ ValidTriples(e.texp) /\ ShowsOK(e.shows)
                    [] e.op = "tok" -> ValidTriples(e.rng) /\ ValidTriples(e.exp)
-                   [] e.op = "list" -> ValidTriples(e.rng)
+                   [] e.op = "list" -> ValidTriples(e.rng) /\ ValidTriples(e.crng)
                    [] OTHER -> TRUE
 \* ---- implementation-shaped prediction (informational)
 Predicted(e) == LET o == PS!Outcomes(e.s) IN
